@@ -613,7 +613,10 @@ func sameSliceExpr(a, b ssa.Value) bool {
 }
 
 func c02R7(c *Ctx) {
-	r := c.R.Rule("R7", "K3 teardown order in Source.Teardown: flush → wait for pending writes → close the deferred queue → drain delivery → stop the stream → join delivery → wait readers → plugin teardown → ConnectorStopped", 9)
+	c02TeardownOrder(c, c.R.Rule("R7", "K3 teardown order in Source.Teardown: flush → wait for pending writes → close the deferred queue → drain delivery → stop the stream → join delivery → wait readers → plugin teardown → ConnectorStopped", 9))
+}
+
+func c02TeardownOrder(c *Ctx, r string) {
 	fn := c.SSA(r, pConn, "(*Source).Teardown")
 	if fn == nil {
 		return
